@@ -24,6 +24,9 @@ func init() {
 		Entries: []EntrySpec{
 			{Pkg: "biscuit", Func: "VerifC04Verdict", Quick: sc("authFacts", 1, "authRule", 2, "authCheck", 2, "policies", 1), Thorough: sc("authFacts", 1, "authRule", 2, "authCheck", 3, "policies", 1), Covers: []string{"allow", "failed"}},
 			{Pkg: "biscuit", Func: "VerifC04Verdict", Quick: sc("authFacts", 1, "blocks", 1, "blkFacts", 1, "blkRule", 2, "blkCheck", 1), Thorough: sc("authFacts", 1, "blocks", 1, "blkFacts", 1, "blkRule", 2, "blkCheck", 2), Covers: []string{"allow", "failed"}},
+			// two later blocks, each with one fact and one check (the two checks may coincide: what one block
+			// established about a check says nothing about the same check in the next block's scope)
+			{Pkg: "biscuit", Func: "VerifC04Verdict", Quick: sc("authFacts", 1, "blocks", 2, "blkFacts", 1, "blkCheck", 1), Thorough: sc("authFacts", 1, "blocks", 2, "blkFacts", 1, "blkCheck", 1), Covers: []string{"allow", "failed"}},
 			{Pkg: "biscuit", Func: "VerifC04Verdict", Quick: sc("authFacts", 1, "azCheck", 1, "azCheck2", 1), Thorough: sc("authFacts", 1, "azFacts", 1, "azCheck", 2, "azCheck2", 1), Covers: []string{"allow", "failed"}},
 			{Pkg: "biscuit", Func: "VerifC04Incremental", Quick: sc("authFacts", 1, "azRule", 1, "policies", 1, "polMode", 2), Thorough: sc("authFacts", 1, "azFacts", 1, "azRule", 2, "policies", 1, "polMode", 2), Covers: []string{"decided", "allow"}},
 			// authority-level rules next to a block with facts and a check: they must not be applied to the block's facts
